@@ -35,6 +35,8 @@ def run(ctx):
     ctx.do(rule_syntax_agreement)
     ctx.do(rule_reject)
     ctx.do(rule_descends)
+    from .hidden_state import rule_no_hidden_state
+    ctx.do(rule_no_hidden_state, "C08.history-independence")
 
 
 def _bool_uses(node, name):
